@@ -82,6 +82,10 @@ def run_shard(spec):
             r.hcr.amo = rng.randrange(2)
             r.hsctlr.te = rng.randrange(2)
             r.hsctlr.ee = rng.randrange(2)
+        if thumb and kind in ('undef', 'svc', 'smc', 'dabort', 'irq', 'fiq', 'hyptrap') and rng.random() < 0.2:
+            r.cpsr.j = 1                  # source state ThumbEE (J = T = 1): every entry clears J and sets T from (H)SCTLR.TE
+            desc['thumbee'] = True
+            ls.bump('entries_from_thumbee')
         desc.update(exc=kind, sctlr='%#x' % r.sctlr.value, scr='%#x' % r.scr.value, hcr='%#x' % r.hcr.value)
         M.activate(cpu)
         pre = observe.snapshot(cpu)
